@@ -176,6 +176,8 @@ class Kinds:
             rk = self._range_kind(dom)
             if rk is not None:
                 return rk
+            if dom[0] == "idx" and dom[2][0] == "slice" and dom[1][0] == "attr" and dom[1][2] == "adjacency":
+                dom = dom[1]  # an element of a slice of the adjacency list is an element of the list
             if dom[0] == "attr" and dom[2] == "adjacency":
                 n = node_of(dom[1])
                 if n:
